@@ -164,6 +164,8 @@ def spawn(name, root, task, task_args, clock_now, cfg, faults=(), lockstep=False
 
             world.on_seam = report
         seams.install(world, clock)
+        if cfg.get("line_points", True):
+            install_line_points(world)
         try:
             res = ("ok", task(world, clock, *task_args))
         except BaseException:
@@ -174,6 +176,54 @@ def spawn(name, root, task, task_args, clock_now, cfg, faults=(), lockstep=False
         code = 3
     finally:
         os._exit(code)
+
+
+def install_line_points(world):
+    """Every executed line of the functions in mako/template.py that decide about and write module files
+    (and of util.verify_directory) is a seam call labelled "line": a process can die, or another process can
+    run, between any two lines there -- also between an open() and the write()/close() of code that does not
+    go through the intercepted os/tempfile/shutil calls.  sys.monitoring (3.12) delivers LINE events for
+    these code objects only, so lexing and code generation run at full speed."""
+    mon = getattr(sys, "monitoring", None)
+    if mon is None:
+        return False
+    import types
+
+    import mako.template
+    import mako.util
+
+    codes = {}
+    skip = {"_compile", "_compile_text", "__init__"}
+
+    def add(fn):
+        code = getattr(fn, "__code__", None)
+        if code is not None and code.co_filename == mako.template.__file__ and fn.__name__ not in skip:
+            codes[code] = fn.__name__
+
+    for obj in vars(mako.template).values():
+        if isinstance(obj, types.FunctionType):
+            add(obj)
+    for name in ("_compile_from_file",):
+        add(mako.template.Template.__dict__[name])
+    codes[mako.util.verify_directory.__code__] = "verify_directory"
+    tool = mon.DEBUGGER_ID
+    try:
+        mon.use_tool_id(tool, "vsim")
+    except ValueError:
+        return False
+
+    def on_line(code, lineno):
+        if world.enabled and not world.in_line_seam:
+            world.in_line_seam = True
+            try:
+                world.seam("line", "%s:%d" % (codes.get(code, "?"), lineno))
+            finally:
+                world.in_line_seam = False
+
+    mon.register_callback(tool, mon.events.LINE, on_line)
+    for code in codes:
+        mon.set_local_events(tool, code, mon.events.LINE)
+    return True
 
 
 def run_lockstep(nodes, choose, clock, tick, on_step=None, max_steps=4000):
